@@ -73,6 +73,7 @@ func (s *coreSim) logf(format string, a ...any) {
 
 func newCoreSim(cfg coreCfg, lg *vlog, rep *vreport) *coreSim {
 	s := &coreSim{cfg: cfg, lg: lg, rep: rep, now: cfg.Clock, stats: map[string]int{}}
+	setClock(cfg.Clock)
 	for e := 0; e < 2; e++ {
 		e := e
 		s.emitted[e] = map[uint32]int{}
@@ -388,6 +389,7 @@ type coreMon struct {
 	prefix     bool
 	windows    bool
 	outputSize bool
+	rto        bool
 }
 
 var curMon coreMon
@@ -447,6 +449,9 @@ func (s *coreSim) monPrefix(e int) {
 
 // monAfter: C04 occupancy and outstanding bounds after every call.
 func (s *coreSim) monAfter(e int, where string) {
+	if curMon.rto {
+		s.monRto(e)
+	}
 	if !curMon.windows {
 		return
 	}
